@@ -98,6 +98,13 @@ class Network:
         self.conns = []         # Connection records
         self.sends = []         # (decision, time, conn_id, direction 'c2s'|'s2c', bytes)
         self.mid_message_blocks = 0
+        self.sockets = []       # every socket created inside a simulated thread
+
+    def process_exit(self, sim, proc, killed):
+        """the OS closes every descriptor the exited process still held"""
+        for sk in self.sockets:
+            if sk._proc == proc and sk._state in ('connected', 'listening'):
+                sk._os_close(sim)
 
 
 class Connection:
@@ -139,6 +146,13 @@ class SimSocket:
         self._tx = None
         s = current_sim()
         self.name = s.new_obj_name('Socket') if s else 'Socket?'
+        # the simulated OS process that owns this descriptor (closed by the OS when it exits)
+        self._proc = None
+        if s is not None and s.active and s.in_sim_thread():
+            self._proc = s.me().proc
+            nw = _NET[0]
+            if nw is not None:
+                nw.sockets.append(self)
 
     # -- options that the code may touch ------------------------------------------------------
     def setsockopt(self, *a):
@@ -354,6 +368,24 @@ class SimSocket:
         elif st == 'connected':
             self._half_close(s)
             self._rx.reader_closed = True
+
+    def _os_close(self, s):
+        """closed by the operating system because the owning process has exited (no yield point:
+        called by the controller)"""
+        if self._state == 'connected':
+            self._state = 'closed'
+            self._half_close(s)
+            self._rx.reader_closed = True
+        elif self._state == 'listening':
+            self._state = 'closed'
+            net = network()
+            if net.listeners.get(self._addr) is self:
+                del net.listeners[self._addr]
+                net.closed_addrs.add(self._addr)
+            for conn in self._queue:
+                conn.s2c.reset = True
+                conn.c2s.reader_closed = True
+            self._queue = []
 
     def detach(self):
         return -1
